@@ -451,10 +451,17 @@ Definition exec (fuel : nat) (line : N) (s : stmt) (rest : kont) : sst -> sst * 
                   sdo _ <~ (fun st => (print_text st (match v with VStr t => t | _ => fmt_val v ++ [c_space] end), EvOk tt)) ;;
                   go r
               end) items)
-  | SIf _ p th el =>
+  | SIf c p th el =>
       run (sdo v <~ eval fuel line p ;;
            match truthy v with
-           | EvOk true => sret (Go (tag_line line th ++ fst rest, snd rest))
+           | EvOk true =>
+               (* after the THEN part control passes over the ELSE part: that point belongs to this line
+                  (a RETURN or NEXT that comes back to it re-enters the line) *)
+               let over_else := match el with
+                                | [] => []
+                                | _ => [(line, SIf c (EInt c 1) [] [])]
+                                end in
+               sret (Go (tag_line line th ++ over_else ++ fst rest, snd rest))
            | EvOk false => sret (Go (tag_line line el ++ fst rest, snd rest))
            | EvErr c => serr c
            | EvUndef => sundef
